@@ -200,6 +200,7 @@ func c18ReadTries(db *Database, root common.Hash, w *c17World) (error, error) {
 }
 
 func c18Check(r *mc.R, c c18Case) error {
+	progressAll := r.Thorough() // quick tier: the index-progress sweep only for histories without rollback
 	in := c17NewInst(c.Cfg)
 	defer in.close()
 	if err := c18WaitInited(in); err != nil {
@@ -263,6 +264,7 @@ func c18Check(r *mc.R, c c18Case) error {
 		return err
 	}
 	// index pruner at the current history tail (the background pruner only acts after 90000 pruned histories)
+	pruned := false
 	for _, ix := range []*historyIndexer{in.db.stateIndexer, in.db.trienodeIndexer} {
 		if ix == nil {
 			continue
@@ -275,16 +277,19 @@ func c18Check(r *mc.R, c c18Case) error {
 			continue
 		}
 		r.Outcome("index-pruner-run")
+		pruned = true
 		if err := ix.pruner.process(tail + 1); err != nil {
 			return fmt.Errorf("index pruner: %v", err)
 		}
 	}
-	if err := c18VerifyReads(r, in, all, true, "after index pruning"); err != nil {
-		return err
+	if pruned {
+		if err := c18VerifyReads(r, in, all, true, "after index pruning"); err != nil {
+			return err
+		}
 	}
 	// every index progress value: un-index the newest histories one by one, then index them again
 	for _, ix := range []*historyIndexer{in.db.stateIndexer, in.db.trienodeIndexer} {
-		if ix == nil {
+		if ix == nil || (c.Rollback >= 0 && !progressAll) {
 			continue
 		}
 		head, _ := ix.freezer.Ancients()
@@ -335,6 +340,20 @@ func TestVerif_C18(t *testing.T) {
 		r.Assume("oracle: an opened historical reader never returns a value different from the root's world; abandoned/pruned/unknown roots are refused; " +
 			"canonical roots with tail <= id < disk layer id must be readable when the index is complete")
 		hists := c17Histories(maxLen, maxCommits)
+		if r.Quick() {
+			// quick tier: Commit only as the last operation of the base history (the fork after a rollback adds two more)
+			var keep [][]string
+			for _, h := range hists {
+				mid := false
+				for _, op := range h[:len(h)-1] {
+					mid = mid || op == c17Commit
+				}
+				if !mid {
+					keep = append(keep, h)
+				}
+			}
+			hists = keep
+		}
 		r.Bound("histories", len(hists))
 		var cfgs []c17Cfg
 		for _, hist := range []uint64{0, 2} {
@@ -354,8 +373,12 @@ func TestVerif_C18(t *testing.T) {
 		}
 		r.Bound("configurations", len(cfgs))
 		// rollback to the initial state (id 0) followed by re-extension, the shortest history per configuration
+		// (these few cases also start the indexers through the genuine background initer)
 		for _, cfg := range cfgs {
+			cfg.RealIniter = true
 			c := c18Case{cfg, []string{"A+", c17Commit}, 0}
+			r.Case(c, func() error { return c18Check(r, c) })
+			c = c18Case{cfg, []string{"A.k0=1", "A.k0=2", "A!", c17Commit}, -1}
 			r.Case(c, func() error { return c18Check(r, c) })
 		}
 		r.Parallel(len(hists), func(i int) {
